@@ -390,6 +390,18 @@ def any_duplicate(case, coords, simu, pt, skip):
     return False
 
 
+def constraint_rows(simu):
+    """integer description of the constraint rows of a simulation (Dirichlet dofs, Lagrange dofs/coefs)"""
+    pt = simu.problemType
+    lg = []
+    for bc in simu.Bc_Lagrange:
+        cs = [float(c) for c in bc.lagrangeCoefs]
+        if any(c != int(c) for c in cs):
+            return None
+        lg.append([[int(d) for d in bc.dofs], [int(c) for c in cs], 0])
+    return {"n": int(simu.mesh.Nn * simu.Get_dof_n(pt)), "dirichlet": [int(d) for d in simu.Bc_dofs_Dirichlet(pt)], "lagrange": lg}
+
+
 def run_special(case):
     """named scenarios on real simulations (duplicates with Lagrange / with Newton, beam connection)."""
     res = {"id": case["id"], "error": None, "checks": []}
@@ -482,6 +494,7 @@ def run_special(case):
                         worst = max(worst, float(np.abs(u[dd] - vv).max()))
                     return worst
                 s0 = build("scipy")
+                res["rows"] = constraint_rows(s0)
                 u0 = np.asarray(s0.Solve(), dtype=float)
                 umax = max(1.0, float(np.abs(u0).max()))
                 add("lagrange-backends:scipy:constraints<=1e-9", np.all(np.isfinite(u0)) and constraint_residual(s0, u0) <= 1e-9 * umax, {"worst": constraint_residual(s0, u0), "n_lagrange": len(s0.Bc_Lagrange), "n": int(u0.size)})
@@ -625,6 +638,7 @@ def run_special(case):
                     simu.add_dirichlet(clamp, [0], ["x"])             # the clamp node fixed once more in x
                 simu.add_connection_fixed(corner)
                 simu.add_neumann(tip, [case["F"]], ["x"])
+                res["rows"] = constraint_rows(simu)
                 u = np.asarray(simu.Solve(), dtype=float)
                 pt = simu.problemType
                 ok_fin = bool(np.all(np.isfinite(u)))
